@@ -271,7 +271,7 @@ def main(tier, only=None):
         raise MachineryError("non-vacuity control failed: Crash does not violate CompilesOrDiagnoses")
     run.add_mc("Cli(AllowCrash control)", crash)
     # ---- S2C: option combinations from the spec x models
-    n = 176 if tier == "quick" else 3000
+    n = 320 if tier == "quick" else 3000
     optrecs = options_from_tlc(run, n, sd)
     models = [(e["family"], e["net"], False) for e in corpus.all_singles(sd, tier=tier)]
     hints = {}
@@ -281,6 +281,21 @@ def main(tier, only=None):
             hints[id(e["net"])] = e["hint"]
     models += corner_models(rng, n - len(models))
     rng.shuffle(models)
+    # graph shapes (corpus_shapes.py) and the legacy families whose failure classes need their hinted configuration, appended
+    # with option records of their own (the pairing of the models above with their option records is unchanged); emphasis:
+    # tensors with two interface roles, few channels on two cores, competing fast-storage groups, widening elementwise
+    # chains, tied weights, early CPU outputs
+    models = models[:len(optrecs)]
+    optrecs = optrecs[:len(models)]
+    focus = corpus.shape_jobs(sd, tier, extra=["io_alias"] * 2 + ["tiny_depth"] * 3 + ["fsgroups"] * 3 + ["skip_out", "ewchain"], thorough=20)
+    if focus:
+        focus += corpus.draw(8 if tier == "quick" else 160, sd + 29, families=["diamonds", "widen", "tied", "widen", "diamonds", "widen", "tied", "widen"])
+        recs = options_from_tlc(run, len(focus), sd + 7919)
+        for e, rec in zip(focus, recs):
+            models.append((e["family"], e["net"], False))
+            optrecs.append(rec)
+            if e.get("hint"):
+                hints[id(e["net"])] = e["hint"]
     from .. import codec
     codec.shim_dir()          # build the codec once, before the invocation threads start
     d = run.tmpdir("c13")
